@@ -15,7 +15,7 @@ let handle (args : t list) : t =
   | [A "set-literal"; L vs] -> of_cl (string_set_literal (List.map sl vs))
   (* (rule-lines level x class name (snippet ...) ("iri" ...) "message as written") -> ("line" ...)      RuleGen.rule_lines
      snippet = (count src rule n per-value negated cond k cid tpath) | (pattern src rule n negated "pattern" "shown" tpath)
-             | (datatype src rule n negated dt tpath) | (numeric src rule n negated cid op "k" tpath) | (in src rule n1 n2 negated ("v" ...) tpath) | (contains all src rule n1 n2 negated ("v" ...) tpath) *)
+             | (datatype src rule n negated dt tpath) | (numeric src rule n negated cid op "k" tpath) | (in src rule n1 n2 negated ("v" ...) tpath) | (contains all src rule n1 n2 negated ("v" ...) tpath) | (cmp srcA ruleA srcB ruleB negated cid op tpath) *)
   | [A "rule-lines"; level; x; cls; name; L snips; L iris; msg] ->
       let x' = sl x in
       let b v = (match v with A "1" -> true | A "true" -> true | _ -> false) in
@@ -32,6 +32,8 @@ let handle (args : t list) : t =
             in_snippet x' (sl src) (sl rule) (nat_of_int (int n1)) (nat_of_int (int n2)) (b neg) (List.map sl vals) (sl tp)
         | L [A "contains"; all; src; rule; n1; n2; neg; L vals; tp] ->
             contains_snippet (b all) x' (sl src) (sl rule) (nat_of_int (int n1)) (nat_of_int (int n2)) (b neg) (List.map sl vals) (sl tp)
+        | L [A "cmp"; sa; ra; sb; rb; neg; cid; op; tp] ->
+            cmp_snippet x' (sl sa) (sl ra) (sl sb) (sl rb) (b neg) (sl cid) (sl op) (sl tp)
         | _ -> raise (Parse_error "c07 snippet") in
       L (List.map of_cl (rule_lines (sl level) x' (sl cls) (paste_name (sl name)) (List.map snip snips) (List.map sl iris) (paste_message (sl msg))))
   | _ -> raise (Parse_error "c07 op")
